@@ -1897,3 +1897,5 @@ def _end_inside_start(src):
 
 
 M2("c20-end-timestamp-decoded-only-with-a-start", "C20", "R4.conversion-depends-on-its-own-presence-only", [{"file": "lambda_service.py", "fn": _end_inside_start}], desc="r8_C20")
+M("c06-timer-drops-the-error-while-execute-waits", "C06", "R4.timer-drops-an-error-only-on-the-way-out", "concurrency/executor.py",
+  "                if self._completion_event.is_set():\n                    # execute() is returning", "                if not self._completion_event.is_set():\n                    # execute() is returning")
